@@ -71,7 +71,7 @@ def run(ctx):
     # ---- R1b + export: intended design
     beh = ctx.path("cases.ndjson")
     if q:
-        g = ctx.tlc(sd, "MC_Correlation", _cfg(sd, "gen.cfg", defects="", ids=ABC, maxlen=3, nil="FALSE", mod=16, res=ctx.seed,
+        g = ctx.tlc(sd, "MC_Correlation", _cfg(sd, "gen.cfg", defects="", ids=ABC, maxlen=3, nil="FALSE", mod=4, res=ctx.seed,
                                                rest=INVS + "\nACTION_CONSTRAINT EmitDone"), timeout=900, behaviours_out=beh)
         g2 = ctx.tlc(sd, "MC_Correlation", _cfg(sd, "gen2.cfg", defects="", ids=ABC, maxlen=2, nil="TRUE", mod=1, res=0,
                                                 rest=INVS + "\nACTION_CONSTRAINT EmitDone"), timeout=900,
@@ -123,6 +123,6 @@ def run(ctx):
         vlib.selftest_rejects(ctx, sd, "Trace_Correlation", "Trace_Correlation.cfg", tr, corrupt)
     ctx.cov(rule="R2: one case per (header miniblock list, body): all lists of length 0..3 over 16 header entries (the honest "
                  "entry of each of 3 miniblocks, each with one attribute changed, a foreign hash) x all bodies of length 0..3 "
-                 "over the 3 miniblocks (quick: the length-3 lists sampled 1/16 by seed), plus length <= 2 over 6 miniblocks / "
+                 "over the 3 miniblocks (quick: the length-3 lists sampled 1/4 by seed), plus length <= 2 over 6 miniblocks / "
                  "31 entries / nil miniblocks; non-trivial = equal lengths, no nil, every body miniblock's hash listed (the "
                  "real function reaches the attribute comparison); distinct = distinct pairs. R3: random traces.")
